@@ -466,10 +466,14 @@ func c01Smux(w *World, r *Report) {
 			cfg := c.Call.Args[1]
 			bad := ""
 			fromDefault := false
-			for _, root := range provenance(cfg, provOpts{}) {
+			// the configuration object(s): the argument itself and, when a builder helper returns it, the
+			// DefaultConfig() result inside that helper
+			cfgVals := map[ssa.Value]bool{cfg: true}
+			for _, root := range provInter(cfg, 0) {
 				if dc, ok := root.(*ssa.Call); ok {
 					if df := sCallee(dc); df != nil && df.Pkg() != nil && df.Pkg().Path() == "github.com/xtaci/smux" && df.Name() == "DefaultConfig" {
 						fromDefault = true
+						cfgVals[dc] = true
 						continue
 					}
 				}
@@ -483,34 +487,53 @@ func c01Smux(w *World, r *Report) {
 				bad = "the smux configuration does not start from smux.DefaultConfig()"
 			}
 			// stores into the config's fields
-			allInstrs(fn, func(in2 ssa.Instruction) {
-				st, ok := in2.(*ssa.Store)
-				if !ok {
-					return
+			cfgFuncs := map[*ssa.Function]bool{fn: true}
+			for v := range cfgVals {
+				if in, ok := v.(ssa.Instruction); ok && in.Parent() != nil {
+					cfgFuncs[in.Parent()] = true
 				}
-				fa, ok := st.Addr.(*ssa.FieldAddr)
-				if !ok || fa.X != cfg {
-					return
-				}
-				fv := fieldVarOf(fa)
-				v, isC := constIntVal(st.Val)
-				switch fv.Name() {
-				case "MaxFrameSize":
-					if !isC {
-						bad = "MaxFrameSize is not a constant: admissibility cannot be decided"
-					} else if v <= 0 || v > 65535 {
-						bad = fmt.Sprintf("MaxFrameSize = %d is outside smux's admissible range (0, 65535]: smux.%s refuses to start and nothing is carried", v, f.Name())
+			}
+			for cf := range cfgFuncs {
+				allInstrs(cf, func(in2 ssa.Instruction) {
+					st, ok := in2.(*ssa.Store)
+					if !ok {
+						return
 					}
-				case "Version":
-					if isC && v != 1 && v != 2 {
-						bad = fmt.Sprintf("smux Version %d is not supported", v)
+					fa, ok := st.Addr.(*ssa.FieldAddr)
+					if !ok {
+						return
 					}
-				case "MaxReceiveBuffer", "MaxStreamBuffer":
-					if isC && v <= 0 {
-						bad = fmt.Sprintf("%s = %d is not positive: smux refuses the configuration", fv.Name(), v)
+					isCfg := cfgVals[fa.X]
+					if !isCfg {
+						for _, root := range provenance(fa.X, provOpts{}) {
+							if cfgVals[root] {
+								isCfg = true
+							}
+						}
 					}
-				}
-			})
+					if !isCfg {
+						return
+					}
+					fv := fieldVarOf(fa)
+					v, isC := constIntVal(st.Val)
+					switch fv.Name() {
+					case "MaxFrameSize":
+						if !isC {
+							bad = "MaxFrameSize is not a constant: admissibility cannot be decided"
+						} else if v <= 0 || v > 65535 {
+							bad = fmt.Sprintf("MaxFrameSize = %d is outside smux's admissible range (0, 65535]: smux.%s refuses to start and nothing is carried", v, f.Name())
+						}
+					case "Version":
+						if isC && v != 1 && v != 2 {
+							bad = fmt.Sprintf("smux Version %d is not supported", v)
+						}
+					case "MaxReceiveBuffer", "MaxStreamBuffer":
+						if isC && v <= 0 {
+							bad = fmt.Sprintf("%s = %d is not positive: smux refuses the configuration", fv.Name(), v)
+						}
+					}
+				})
+			}
 			r.Check(bad == "", "R01.4", key, pos, "configuration starts from smux.DefaultConfig(); constant overrides lie inside smux.VerifyConfig's bounds", bad)
 		})
 	}
